@@ -139,8 +139,9 @@ type c24case struct {
 // generator state per symbol: predicted base content and the as-is model with every switch on (it
 // tracks what the pinned tree does; used to place requests on / off the triggers)
 type c24gsym struct {
-	base map[int64]c24bar
-	sim  *c24sim
+	base    map[int64]c24bar
+	sim     *c24sim
+	lastMax int64 // latest epoch of the previous request for this symbol
 }
 
 func (g *c24gsym) sorted() []c24bar {
@@ -169,8 +170,12 @@ func (g *c24gsym) try(bars []c24bar) c24flags {
 }
 
 func (g *c24gsym) apply(bars []c24bar) {
+	g.lastMax = 0
 	for _, b := range bars {
 		g.base[b.E] = b
+		if b.E > g.lastMax {
+			g.lastMax = b.E
+		}
 	}
 	g.sim.fire(bars, g.sorted())
 }
@@ -308,6 +313,23 @@ func c24gen(c *runner.Ctx) *c24case {
 				out = append(out, c24newBar(r, es[i]))
 			}
 			return out
+		case "resend": // the most recent bar sent again with new values (a correction), alone or followed by newer bars
+			e := mx
+			if r.Bool() && g.lastMax != 0 {
+				e = g.lastMax // the latest bar of the previous request (the window the trigger has cached)
+			}
+			if e == 0 {
+				return nil
+			}
+			out := []c24bar{c24newBar(r, e)}
+			for i, n := 0, r.PickI(0, 0, 1, 2, 5); i < n; i++ {
+				e += 60 * int64(r.PickI(1, 1, 2, 3))
+				if _, ok := g.base[e]; ok && e != mx {
+					break
+				}
+				out = append(out, c24newBar(r, e))
+			}
+			return out
 		case "correct+new": // corrections and new bars in one request
 			es := existing(g, 0, 1<<62)
 			if len(es) == 0 {
@@ -330,7 +352,7 @@ func c24gen(c *runner.Ctx) *c24case {
 		}
 		return nil
 	}
-	kinds := []string{"append", "append", "append", "otherday", "backfill", "backfill", "correct", "correct", "correct+new", "span"}
+	kinds := []string{"append", "append", "append", "otherday", "backfill", "backfill", "correct", "correct", "correct+new", "span", "resend", "resend"}
 
 	// cache2 stratum: the first two requests put bars on both sides of a boundary between two
 	// upper-bound windows (so that partial aggregation of the neighbouring window is visible), the third
